@@ -10,6 +10,7 @@ package main
 //   * compared per operation with the Lean model (c02.run) and the Lean flat specification (c02.flat).
 
 import (
+	"encoding/json"
 	"bytes"
 	"encoding/binary"
 	"errors"
@@ -478,6 +479,10 @@ type c02Input struct {
 	Rd    int     `json:"rd"`
 	Slow  bool    `json:"slow"`
 	Procs int     `json:"gomaxprocs"`
+	// fault runs (c02lts.go)
+	Fault    bool `json:"fault,omitempty"`
+	FailFrom int  `json:"fail_from,omitempty"`
+	FailLen  int  `json:"fail_len,omitempty"`
 }
 
 func c02ErrClass(err error) string {
@@ -528,6 +533,18 @@ func runC02(c *ctx, f *c02File, ops []c02Op, rd int, slow bool, procs int) []str
 	if slow {
 		src = &slowReadSeeker{r: bytes.NewReader(f.raw), rnd: c.rnd.fork()}
 	}
+	// read-ahead runs over the raw reader are traced for the trace-inclusion check (c02lts.go)
+	var lts *ltsTrace
+	if erd := rd; !slow && c.replay == "" {
+		if erd == 0 {
+			erd = runtime.GOMAXPROCS(0)
+		}
+		if erd > 1 {
+			lg := &ltsLog{}
+			src = &tracedReader{data: f.raw, log: lg}
+			lts = &ltsTrace{f: f, log: lg, rd: erd}
+		}
+	}
 	var bg *bgzf.Reader
 	var err error
 	o := guardTimeout(c02OpTimeout, func() { bg, err = bgzf.NewReader(src, rd) })
@@ -556,6 +573,9 @@ func runC02(c *ctx, f *c02File, ops []c02Op, rd int, slow bool, procs int) []str
 		var n int
 		var got []byte
 		var e error
+		if lts != nil && op.Kind != "B" {
+			lts.mark()
+		}
 		o := guardTimeout(c02OpTimeout, func() {
 			switch op.Kind {
 			case "r":
@@ -591,6 +611,14 @@ func runC02(c *ctx, f *c02File, ops []c02Op, rd int, slow bool, procs int) []str
 		bm := "u"
 		if t.blocked {
 			bm = "b"
+		}
+		if lts != nil && op.Kind != "B" {
+			ngot := len(got)
+			if op.Kind == "b" && e != nil {
+				ngot = 0 // the byte returned with an error carries no data
+			}
+			lts.after(op, ngot, e, lc, t.blocked)
+			lts.mark()
 		}
 		switch op.Kind {
 		case "r", "b":
@@ -653,7 +681,14 @@ func runC02(c *ctx, f *c02File, ops []c02Op, rd int, slow bool, procs int) []str
 		out = append(out, fmt.Sprintf("%d:%s:%d.%d:%d.%d:%d:%d", len(got), c02ErrClass(e), lc.Begin.File, lc.Begin.Block, lc.End.File, lc.End.Block, bg.BlockLen(), c02Hash(got)))
 	}
 	var cerr error
+	if lts != nil {
+		lts.mark()
+		lts.script = append(lts.script, "c")
+	}
 	o = guardTimeout(c02OpTimeout, func() { cerr = bg.Close() })
+	if lts != nil && !o.timedOut && !o.panicked {
+		lts.finish(in())
+	}
 	if o.timedOut {
 		r.fail("c02.hang.Close."+mode, "Close did not return", in())
 		c02Hangs[fmt.Sprintf("rd%d", rd)]++
@@ -796,15 +831,54 @@ func checkC02(c *ctx) {
 			runs = append(runs, run{li, rd, impl})
 			r.eval(fmt.Sprintf("%s|%s|%d", blocks, opsM, rd), hasSeek && touches)
 		}
+		if h%2 == 0 {
+			runC02Fault(c, f, ops, 2+2*(h/2%2), procs)
+		}
 		if h < 3 {
 			r.sample(c02Input{File: c02File{Blocks: f.Blocks}, Ops: ops, Rd: 2, Procs: procs})
 		}
+	}
+	// trace inclusion: the observed member loads and API markers of every traced read-ahead run
+	ltsAt := make([]int, len(c02LtsCases))
+	for i, lc := range c02LtsCases {
+		ltsAt[i] = -1
+		if strings.HasPrefix(lc.line, "broken") {
+			r.disagree("C02.lts", "(trace capture)", lc.line, "")
+			continue
+		}
+		ltsAt[i] = d.add("%s", lc.line)
 	}
 	model, err := d.run()
 	if err != nil {
 		r.disagree("C02", "(driver failure)", "", err.Error())
 		return
 	}
+	nev, nld := 0, 0
+	for i, lc := range c02LtsCases {
+		if ltsAt[i] < 0 {
+			continue
+		}
+		ans := model[ltsAt[i]]
+		r.ModelOps += lc.nev
+		nev += lc.nev
+		nld += lc.nloads
+		if strings.HasPrefix(ans, "path ") && strings.Contains(ans, "done=1 stuck=0 panic=0") {
+			r.TracesValidated++
+			if lc.faults {
+				r.hist(fmt.Sprintf("lts.trace.faults.rd%d", lc.in.Rd))
+			} else {
+				r.hist(fmt.Sprintf("lts.trace.rd%d", lc.in.Rd))
+			}
+			continue
+		}
+		line := lc.line
+		if len(line) > 3000 {
+			line = line[:3000] + "…"
+		}
+		js, _ := json.Marshal(lc.in)
+		r.disagree(fmt.Sprintf("C02.lts.rd%d", lc.in.Rd), line, "observed trace of the implementation; input "+string(js), ans)
+	}
+	r.note("trace inclusion (Hts.Model.ReadAhead): %d read-ahead runs, %d events (%d member loads) replayed", len(c02LtsCases), nev, nld)
 	for _, ru := range runs {
 		r.ModelOps += 2 * len(ru.impl)
 		c02Compare(r, fmt.Sprintf("C02.model.rd%d", ru.rd), d.lines[ru.line], ru.impl, model[ru.line], false)
